@@ -43,6 +43,51 @@ def last_pat(err):
     return (int(m.group(1)), m.group(2)) if m else (None, None)
 
 
+def run_watched(argv, stdin, idle, total):
+    """run the probe, watching its stderr (one 'PAT n pattern' line before each pattern): no new line for `idle` seconds, or
+    `total` seconds in all, ends it with timed_out set"""
+    import subprocess, time, select, os as _os
+    t0 = time.time()
+    p = subprocess.Popen(argv, stdin=subprocess.PIPE, stdout=subprocess.PIPE, stderr=subprocess.PIPE, env=common.base_env('/tmp'), start_new_session=True)
+    try:
+        p.stdin.write(stdin)
+        p.stdin.close()
+    except OSError:
+        pass
+    out, err = [], []
+    last = time.time()
+    fds = {p.stdout.fileno(): out, p.stderr.fileno(): err}
+    for fd in fds:
+        _os.set_blocking(fd, False)
+    timed_out = False
+    open_fds = set(fds)
+    while open_fds:
+        rl, _, _ = select.select(list(open_fds), [], [], 1.0)
+        for fd in rl:
+            try:
+                data = _os.read(fd, 65536)
+            except BlockingIOError:
+                continue
+            if not data:
+                open_fds.discard(fd)
+                continue
+            fds[fd].append(data)
+            if fd == p.stderr.fileno():
+                last = time.time()
+        now = time.time()
+        if now - last > idle or now - t0 > total:
+            timed_out = True
+            break
+    if timed_out:
+        try:
+            _os.killpg(p.pid, 9)
+        except OSError:
+            pass
+    rc = p.wait()
+    e = b''.join(err)
+    return common.Result(rc, b''.join(out), e[-20000:], timed_out, time.time() - t0)
+
+
 def run_shard(args):
     exe, alpha, maxlen, shard, nshards = args
     resume = 0
@@ -51,7 +96,7 @@ def run_shard(args):
     restarts = 0
     while True:
         cmd = 'c11enum %s %d %d %d %d %d\n' % (alpha.encode().hex(), maxlen, shard, nshards, BUDGET, resume)
-        r = common.run([exe], cmd.encode(), env=common.base_env('/tmp'), timeout=900)
+        r = run_watched([exe], cmd.encode(), idle=60, total=900)
         out = r.out.decode('latin-1')
         for l in out.split('\n'):
             if l.startswith('ANOM'):
@@ -69,8 +114,13 @@ def run_shard(args):
             break
         rep = common.san_report(r)
         if r.timed_out:
-            stats['hangs'] += 1
-            bad.append(('hang:' + classify(pat), 'pattern %r: compile or match did not finish (watchdog)' % pat, {'pattern': pat}))
+            # no new pattern announced for a minute (each match is bounded by the step budget): run that pattern once more on its own
+            r1 = common.run([exe], ('c11one %s %d\n' % (pat.hex() or '-', BUDGET)).encode(), env=common.base_env('/tmp'), timeout=90)
+            if r1.timed_out:
+                stats['hangs'] += 1
+                bad.append(('hang:' + classify(pat), 'pattern %r: compile or match did not finish (no progress for 60 s, and again 90 s on its own)' % pat, {'pattern': pat}))
+                if stats['hangs'] >= 2:
+                    break       # (two patterns that never finish are enough to call this shard; the rest would take hours)
         elif rep:
             stats['crashes'] += 1
             bad.append((rep + ':' + classify(pat), 'pattern %r: %s' % (pat, r.err[-700:].decode('latin-1')), {'pattern': pat}))
